@@ -96,11 +96,19 @@ fn t_sub_touch_ptr() { body_touch_ptr(state_t(3)); }
 // ---- remove_from_table + remove_metadata (the core of every departure) ---------------------------
 fn body_remove_entry(mut c: LruCache<u8, SV, BH>) {
     let o = order(&c);
+    let a = addrs(&c);
+    let seal_before = c.seal;
     let size_before = c.current_size();
     let k: u8 = kani::any();
     kani::assume(k < 4);
     let r = c.remove_entry(&k);
     coherent(&c);
+    assert!(c.seal == seal_before, "the seal moved");
+    // A-NODE (assumed by the Verus proof of retain): the entries that stay keep their addresses
+    match index_in(o, k) {
+        Some(i) => assert!(same_addrs(addrs(&c), removed_addr(a, i)), "a removal moved another entry"),
+        None => assert!(same_addrs(addrs(&c), a), "a failed removal moved an entry"),
+    }
     match index_in(o, k) {
         Some(i) => {
             let (rk, rv) = r.unwrap();
